@@ -61,7 +61,7 @@ func NewEthState(ccmc []byte, msgs [][]byte) *EthState {
 		st.Update(crypto.Keccak256(slotKey(i).Bytes()), v)
 	}
 	// two unrelated slots so that the trie has branch nodes
-	for i := 100; i < 103; i++ {
+	for i := 1 << 20; i < 1<<20+3; i++ {
 		v, _ := rlp.EncodeToBytes([]byte{byte(i)})
 		st.Update(crypto.Keccak256(slotKey(i).Bytes()), v)
 	}
